@@ -33,7 +33,7 @@ static std::map<void*, TabModel> g_tab;
 static std::vector<InstModel> g_inst;
 static const Plan* g_plan;
 static std::vector<std::string> g_sigs; static std::string g_detail;
-static uint64_t g_ops = 0, g_probes = 0;
+static uint64_t g_ops = 0, g_probes = 0, g_child_instances = 0;
 static bool g_write_replays = true; static const char* g_replay_dir = "/verif/replays";
 
 static void V(const std::string& sig, const std::string& d) { for (auto& s : g_sigs) if (s == sig) return; if (g_sigs.empty()) g_detail = d; g_sigs.push_back(sig); }
@@ -75,12 +75,17 @@ static void probe_all(const std::string& after) {
     }
 }
 
-static void do_instantiate(int c) {
+static void do_instantiate(int c, int parent) {
     InstEnv* env = g_envs[(size_t)g_plan->env_of[(size_t)c]];
+    // a child instance (the way thread-spawn obtains instances) of a module without shared memory is a complete new
+    // instance on the parent's resolver objects; with a shared memory the child deliberately shares it, which is not modelled here
+    bool child = parent >= 0 && parent != c && g_inst[(size_t)parent].up && !D_SHARED;
+    if (child) env = g_envs[(size_t)g_plan->env_of[(size_t)parent]];
     int hooks_before = g_hook_calls;
     sim::sut_enter();
-    void* inst = iglue_instantiate(env);
+    void* inst = child ? iglue_new_child(g_inst[(size_t)parent].inst, env) : iglue_instantiate(env);
     sim::sut_leave();
+    if (child) g_child_instances++;
     InstModel& m = g_inst[(size_t)c];
     m.inst = inst; m.memobj = iglue_mem_object(inst); m.tabobj = iglue_tab_object(inst);
     if (!g_mem.count(m.memobj)) { MemModel mm; mm.pages = D_MEM_MIN; mm.b.assign((size_t)D_MEM_MIN * 65536, 0); g_mem[m.memobj] = mm; }
@@ -117,7 +122,8 @@ static void exec_op(int c, const Op& op) {
 static void exec_op_body(int c, const Op& op) {
     g_ops++;
     InstModel& m = g_inst[(size_t)c];
-    if (op.name == "instantiate") { do_instantiate(c); probe_all("after instantiating instance " + std::to_string(c)); return; }
+    if (op.name == "instantiate") { do_instantiate(c, -1); probe_all("after instantiating instance " + std::to_string(c)); return; }
+    if (op.name == "newchild") { do_instantiate(c, (int)op.a[0]); probe_all("after creating instance " + std::to_string(c) + " as a child of instance " + std::to_string(op.a[0])); return; }
     if (!m.up) return;
     MemModel& mm = g_mem[m.memobj];
     std::string after = "after " + op.name + " on instance " + std::to_string(c);
@@ -160,7 +166,9 @@ static Plan make_plan(uint64_t seed) {
     int nc = 1 + (int)r.below(4); p.tasks.resize((size_t)nc); p.env_of.resize((size_t)nc);
     for (int c = 0; c < nc; c++) {
         p.env_of[(size_t)c] = r.below(2) ? 0 : c;       // share the resolver objects of client 0, or own ones
-        Op i; i.name = "instantiate"; p.tasks[(size_t)c].push_back(i);
+        Op i; i.name = "instantiate";
+        if (c > 0 && r.below(3) == 0) { i.name = "newchild"; i.a[0] = r.below((uint32_t)c); i.nargs = 1; }
+        p.tasks[(size_t)c].push_back(i);
         int n = 2 + (int)r.below(14);
         for (int k = 0; k < n; k++) {
             static const char* names[] = {"set_g0", "set_g1", "store8", "store8", "load8", "size", "grow", "minit", "calli", "load8"};
@@ -178,9 +186,9 @@ static void emit(uint64_t idx, const Plan& p, const Stats& st, const std::vector
     std::string all; for (auto& s : g_sigs) all += (all.empty() ? "" : ";") + s;
     std::string rp = "-";
     if (!g_sigs.empty() && g_write_replays) { char path[512]; snprintf(path, sizeof path, "%s/C06-%016llx.replay", g_replay_dir, (unsigned long long)p.seed); FILE* f = fopen(path, "w"); if (f) { fprintf(f, "# signature %s\n# detail %s\n# variant %s\n%s", all.c_str(), g_detail.c_str(), cfg().c_str(), plan_to_text(p, &trace).c_str()); fclose(f); rp = path; } }
-    printf("R idx=%llu seed=%llu status=%s verdict=%s sig=%s log=%016llx il=%016llx steps=%llu switches=%llu memev=%llu simns=%lld ops=%llu tasks=%zu faults=- probes=probe_all:%llu replay=%s",
+    printf("R idx=%llu seed=%llu status=%s verdict=%s sig=%s log=%016llx il=%016llx steps=%llu switches=%llu memev=%llu simns=%lld ops=%llu tasks=%zu faults=- probes=probe_all:%llu,child_instances:%llu replay=%s",
            (unsigned long long)idx, (unsigned long long)p.seed, status, g_sigs.empty() ? "pass" : "FAIL", g_sigs.empty() ? "-" : all.c_str(), (unsigned long long)st.log_hash, (unsigned long long)st.il_hash,
-           (unsigned long long)st.steps, (unsigned long long)st.switches, (unsigned long long)st.mem_events, (long long)st.sim_ns, (unsigned long long)g_ops, p.tasks.size(), (unsigned long long)g_probes, rp.c_str());
+           (unsigned long long)st.steps, (unsigned long long)st.switches, (unsigned long long)st.mem_events, (long long)st.sim_ns, (unsigned long long)g_ops, p.tasks.size(), (unsigned long long)g_probes, (unsigned long long)g_child_instances, rp.c_str());
     if (!g_sigs.empty()) printf(" detail=%s", g_detail.c_str());
     printf("\n");
 }
@@ -188,7 +196,7 @@ static const Plan* g_cur; static uint64_t g_idx;
 static void fatal_handler(int status, const char* detail) { if (status == RS_DEADLOCK) V("C06/liveness/deadlock", detail); emit(g_idx, *g_cur, sim::stats(), sim::decision_trace(), status == RS_DEADLOCK ? "deadlock" : "budget"); fflush(stdout); _exit(status == RS_DEADLOCK ? 91 : 92); }
 
 static void run_plan(uint64_t idx, const Plan& p) {
-    g_plan = &p; g_cur = &p; g_idx = idx; g_sigs.clear(); g_detail.clear(); g_ops = g_probes = 0;
+    g_plan = &p; g_cur = &p; g_idx = idx; g_sigs.clear(); g_detail.clear(); g_ops = g_probes = g_child_instances = 0;
     g_envs.clear(); g_mem.clear(); g_tab.clear(); g_inst.assign(p.tasks.size(), InstModel());
     for (size_t c = 0; c < p.tasks.size(); c++) {
         InstEnv* e = iglue_env_new(D_MEM_MIN, D_MEM_MAX, D_GOFF, D_GINIT ^ (c * 0x9E3779B97F4A7C15ull));
